@@ -3,6 +3,7 @@ package html
 import (
 	"fmt"
 	"io"
+	"regexp"
 	"strings"
 
 	"github.com/elliotchance/gedcom/v39"
@@ -109,8 +110,12 @@ func PageSources() string {
 }
 
 func PageSource(source *gedcom.SourceNode) string {
-	return fmt.Sprintf("%s.html", source.Pointer())
+	// The pointer comes from the file. It must not be able to name anything
+	// other than a plain file in the output directory ("../x" or "a/b").
+	return fmt.Sprintf("%s.html", sourcePointerRegexp.ReplaceAllString(source.Pointer(), "-"))
 }
+
+var sourcePointerRegexp = regexp.MustCompile("[^a-zA-Z0-9_-]")
 
 func PageStatistics() string {
 	return "statistics.html"
